@@ -6,6 +6,7 @@ PROP = dict(
     contract_modules=["contracts.models", "contracts.sqlite", "contracts.migration"],
     spec_modules=["contracts.sqlite", "contracts.migration"],
     functions=[dict(fn="aw_datastore.migration.peewee_v2_to_sqlite_v1", rt_skip=True),
+               dict(fn="aw_datastore.migration.check_for_migration", rt_skip=True),
                dict(fn=S + "create_bucket", rt_skip=True),
                dict(fn=S + "insert_many", rt_skip=True),
                dict(fn=S + "replace", rt_skip=True),
